@@ -36,8 +36,8 @@ func init() {
 // the directed prefix forces the first five and relies on seeded draws for the rest.
 func c13Directed(tier string) [][]uint64 {
 	var out [][]uint64
-	for es := uint64(0); es < 6; es++ {
-		for ss := uint64(0); ss < 6; ss++ {
+	for es := uint64(0); es < 7; es++ {
+		for ss := uint64(0); ss < 7; ss++ {
 			for alg := uint64(0); alg < 5; alg++ {
 				for cn := uint64(0); cn < 7; cn++ {
 					if tier == "quick" && (es*5+ss*3+alg+cn)%7 != 0 {
@@ -62,7 +62,7 @@ func c13Run(r *core.Run) {
 	// one build: the build must fail, or deliver a fully valid message, and the next build must be sound
 	outage := t.Int(5, "c13.outage") == 1
 	usesSetter := func(k world.KeyStyle) bool {
-		return k == world.KeySetter || k == world.KeyBoth || k == world.KeyBothDiffer
+		return k == world.KeySetter || k == world.KeyBoth || k == world.KeyBothDiffer || k == world.KeyBothDifferTLS
 	}
 	signStyle := o.SigStyle
 	if signStyle == world.KeyNone {
@@ -304,6 +304,13 @@ func c13Run(r *core.Run) {
 				if kd.Use == "signing" && len(kd.KeyInfo.X509Data.X509Certificates) > 0 {
 					pub = kd.KeyInfo.X509Data.X509Certificates[0].Data
 				}
+			}
+			if pub == "" && len(reported) > 0 {
+				// the SP signs (this message verifies under the reported certificate) but its metadata
+				// publishes no signing key at all
+				ctx["sign_requests"] = o.Cfg.SignRequests
+				r.Fail("certificate", fmt.Sprintf("C13/metadata-publishes-no-signing-certificate/%s/sign-requests=%v", []string{"Metadata", "MetadataWithSLO"}[vi], o.Cfg.SignRequests), ctx)
+				return
 			}
 			if pub != "" && pub != base64.StdEncoding.EncodeToString(reported) {
 				r.Fail("certificate", fmt.Sprintf("C13/metadata-signing-certificate-differs/%s/%s", []string{"Metadata", "MetadataWithSLO"}[vi], o.KeyCfg()), ctx)
